@@ -227,6 +227,12 @@ def C06(ctx):
     ctx.assumptions += ["CNFs <= 6 variables, <= 9 clauses; every permutation of the variables may be the decision order (random)",
                         "both node stores (standard, semantic-hash over the 64-bit prime); conditioning on every (variable, value) of results and their negations",
                         "engineered family: unit clauses + a two-variable core whose (un)satisfiability is only found by search"]
+    # design level: topdown_h + compile_cnf_topdown over the Watched SAT model compute exactly EvalCnf, and the
+    # component cache (keyed by the residual) never changes the result - all CNFs of the family x all 6 orders
+    model_check(ctx, "MC_TopDown", "MC_TopDown.cfg", "TopDownAlgo exact + cache-transparent: 10 hand-picked CNFs x 6 orders", workers=4)
+    model_check(ctx, "MC_TopDown", "MC_TopDown_all2.cfg", "all 676 two-clause CNFs over 3 variables x 6 orders", workers=8, timeout=1200)
+    if not ctx.quick:
+        model_check(ctx, "MC_TopDown", "MC_TopDown_all3.cfg", "all 10 400 three-clause CNFs over 3 variables x 6 orders", workers=16, timeout=3000, xmx="8g")
     record_and_validate(ctx, td_jobs(ctx, 8 if ctx.quick else 40, 300 if ctx.quick else 500), "TraceTopDown", "TraceTopDown_C06.cfg")
 
 
